@@ -45,6 +45,7 @@ def has_head(ir, head):
     return ir[0] in "AU" and any(has_head(a, head) for a in ir[2])
 
 
+BOUND = {"Symbol('i')", "Symbol('j')", "Symbol('ki')", "Symbol('kj')"}   # summation indices of generated PoolSums
 POOLSUM = "ampform.sympy.PoolSum"
 TUPLE = "sympy.core.containers.Tuple"
 
@@ -128,18 +129,44 @@ class Gen:
         attrs = [r.choice(attr_pool(f.name, self.picklable)) for f in U.attr_fields(c)]
         return ("U", q, args, attrs)
 
-    def pool_sum(self, depth):
-        """PoolSum(i**? * f, (i, (values...))) with SYMBOLIC pool values; the summand is a scalar instance."""
+    def pool_sum(self, depth, idx="i"):
+        """PoolSum with SYMBOLIC pool values.  Summands: depend on the index directly, through a coefficient
+        that a map can switch off (g, e0 -> 0), not at all (multiplicity len(values) must survive), or are
+        themselves a PoolSum over another index; sometimes a second index that occurs nowhere."""
         r = self.r
-        i = ("Y", "Symbol('i')")
+        i = ("Y", f"Symbol('{idx}')")
+        x, gsym, e0, bsym = ("Y", "Symbol('x')"), ("Y", "Symbol('g')"), ("Y", "Symbol('e0')"), ("Y", "Symbol('b0')")
         scalar = [n for n in self.names if not is_array_class(n)]
-        body = r.choice([("A", "sympy.core.mul.Mul", [i, self.inst(max(depth, 1), r.choice(scalar))]),
-                         ("A", "sympy.core.power.Pow", [("Y", "Symbol('x')"), i]),
-                         ("A", "sympy.core.add.Add", [i, ("Y", r.choice(SYMS[:5]))])])
+        mul, add, pw = "sympy.core.mul.Mul", "sympy.core.add.Add", "sympy.core.power.Pow"
+        psf = ("U", "ampform.dynamics.phasespace.PhaseSpaceFactor", [("Y", "Symbol('s')"), i, ("Y", "Symbol('m2')")], [("n",)])
+        k = r.randrange(9)
+        if k == 0:
+            body = ("A", mul, [i, self.inst(max(depth, 1), r.choice(scalar))])
+        elif k == 1:
+            body = ("A", pw, [x, i])
+        elif k == 2:
+            body = ("A", add, [i, ("Y", r.choice(SYMS[:5]))])
+        elif k == 3:
+            body = ("A", add, [("A", mul, [gsym, ("A", pw, [x, i])]), bsym])          # g -> 0 removes the index
+        elif k == 4:
+            body = ("A", pw, [x, ("A", mul, [e0, i])])                                  # e0 -> 0 removes the index
+        elif k == 5:
+            body = ("A", add, [("A", mul, [gsym, psf]), bsym])                          # folded summand
+        elif k == 6:
+            body = r.choice([bsym, ("A", mul, [bsym, self.inst(1, r.choice(scalar))])])  # index-free summand
+        elif idx == "i" and depth > 0:
+            inner = self.pool_sum(depth - 1, idx="j")                                   # nested sums
+            body = r.choice([inner, ("A", mul, [("A", add, [("A", mul, [gsym, i]), bsym]), inner])])
+        else:
+            body = ("A", mul, [gsym, i])
         vals = [("Y", r.choice(["Symbol('a')", "Symbol('c')"])), r.choice([("N", 2, 1), ("Y", "Symbol('c2')"), ("N", 3, 2)])]
         if r.random() < 0.3:
             vals.append(("N", 5, 1))
-        return ("A", POOLSUM, [body, ("A", TUPLE, [i, ("A", TUPLE, vals)])])
+        idxs = [("A", TUPLE, [i, ("A", TUPLE, vals)])]
+        if r.random() < 0.2:
+            kk = ("Y", f"Symbol('k{idx}')")                                            # an index occurring nowhere
+            idxs.append(("A", TUPLE, [kk, ("A", TUPLE, [("N", 1, 1), ("N", 2, 1), ("N", 3, 1)])]))
+        return ("A", POOLSUM, [body, *idxs])
 
     def helper(self, depth):
         r = self.r
@@ -195,11 +222,15 @@ class Gen:
         r = self.r
         subs = self.subtrees(ir)
         # bound indices of a PoolSum are never keys (C18; side condition `avoids` of the theorem)
-        syms = sorted({t[1] for t in subs if t[0] == "Y"} - ({"Symbol('i')"} if has_head(ir, POOLSUM) else set()))
+        syms = sorted({t[1] for t in subs if t[0] == "Y"} - (BOUND if has_head(ir, POOLSUM) else set()))
         kind = r.choice(["sym2sym", "sym2num", "sym2expr", "sub2sym", "attr", "sym2sym", "sym2num"])
         if has_array(ir) and kind in ("sym2num", "sym2expr"):
             kind = "sym2sym"
         er, ar = [], []
+        sw = sorted({"Symbol('g')", "Symbol('e0')"} & set(syms)) if has_head(ir, POOLSUM) else []
+        if sw and r.random() < 0.5:
+            # switch a coefficient of the summand off/on: the summand may lose its dependence on the index
+            return "switch", [(("Y", k), ("N", r.choice([0, 0, 1]), 1)) for k in r.sample(sw, r.choice([1, len(sw)]))], []
         pv = sorted(pool_value_symbols(ir))
         if pv and r.random() < 0.6:
             # a map that touches ONLY the pool values of a PoolSum
